@@ -195,6 +195,43 @@ class Snippet:
             self.text = clean[:i] + mark('\n' + spec.strip() + '\n') + clean[i:]
         self.splices += 1
 
+    def loop_body_end(self, ordinal, text):
+        """Splice proof text as the last statement of the body of the ordinal-th loop."""
+        self._freeze()
+        mask = _mask_keep_marks(self.text)
+        ms = [m for m in re.finditer(r'\b(while|loop|for)\b', mask)]
+        if ordinal >= len(ms):
+            raise LostAnchor("%s: no loop #%d" % (self.label, ordinal))
+        i = ms[ordinal].end()
+        while mask[i] != '{':
+            if mask[i] in '([':
+                i = match_close(mask, i)
+            i += 1
+        cb = match_close(mask, i)
+        ls = cb
+        while ls > 0 and self.text[ls - 1] in ' \t':
+            ls -= 1
+        self.text = self.text[:ls] + mark(text.rstrip() + '\n') + self.text[ls:]
+        self.splices += 1
+
+    def after_loop(self, ordinal, text):
+        """Splice proof text right after the ordinal-th loop (after its closing brace)."""
+        self._freeze()
+        mask = _mask_keep_marks(self.text)
+        ms = [m for m in re.finditer(r'\b(while|loop|for)\b', mask)]
+        if ordinal >= len(ms):
+            raise LostAnchor("%s: no loop #%d" % (self.label, ordinal))
+        i = ms[ordinal].end()
+        while mask[i] != '{':
+            if mask[i] in '([':
+                i = match_close(mask, i)
+            i += 1
+        cb = match_close(mask, i)
+        k = self.text.find('\n', cb)
+        k = len(self.text) if k < 0 else k + 1
+        self.text = self.text[:k] + mark(text.rstrip() + '\n') + self.text[k:]
+        self.splices += 1
+
     def insert_at(self, anchor_re, text, where='before', occurrence=0):
         """Splice proof text before/after the first line matching anchor_re (in code)."""
         self._freeze()
@@ -209,6 +246,19 @@ class Snippet:
             k = self.text.find('\n', m.end())
             k = len(self.text) if k < 0 else k + 1
         self.text = self.text[:k] + mark(text.rstrip() + '\n') + self.text[k:]
+        self.splices += 1
+
+    def insert_at_end(self, text):
+        """Splice proof text right before the closing brace of the fn body (after the last statement)."""
+        self._freeze()
+        mask = _mask_keep_marks(self.text)
+        cb = mask.rfind('}')
+        if cb < 0:
+            raise LostAnchor("%s: no closing brace" % self.label)
+        ls = cb
+        while ls > 0 and self.text[ls - 1] in ' \t':
+            ls -= 1
+        self.text = self.text[:ls] + mark(text.rstrip() + '\n') + self.text[ls:]
         self.splices += 1
 
     def tail_ident(self):
